@@ -8,7 +8,7 @@ From Coq Require Import ZArith QArith List Bool Lia.
 Import ListNotations.
 From Inf Require Import model.RepexM model.MatchM proofs.RepexP proofs.MatchP proofs.SortP.
 From Inf Require spec.PermS model.PermM.
-From Inf Require Import proofs.BridgeMatchP proofs.BridgeFracP proofs.BridgeInfRetisP.
+From Inf Require Import proofs.BridgeMatchP proofs.BridgeFracP proofs.BridgeInfRetisP proofs.BridgeRunP.
 Open Scope nat_scope.
 
 (* in every state reachable by certified picks, re-issued jobs and completions in any order
@@ -145,6 +145,32 @@ Theorem C05_code_P_positive_iff_certificate : forall rp s rows b0 lk' P i j,
   ((0 < PermM.mget P i j)%Q <-> exists m, take_cert s m i j = true).
 Proof. exact infretis_pos_iff_cert. Qed.
 Print Assumptions C05_code_P_positive_iff_certificate.
+
+(* run level (proofs/BridgeRunP.v): the reachable family is an invariant of certified runs with well
+   shaped result rows, at every point of such a run the code's own P exists (the sampler can always
+   draw), is positive exactly on the certified pairs, every pick the model accepts has positive
+   probability under it, and every pair with positive probability is accepted as a pick *)
+Theorem C05_family_invariant : forall ops f fe, InvM f -> Fam (core f) -> RowsGood f ops ->
+  run_m f ops = Some fe -> InvM fe /\ Fam (core fe).
+Proof. exact run_m_Fam. Qed.
+Print Assumptions C05_family_invariant.
+
+Theorem C05_code_P_exists_and_matches_certificates : forall rp ops f n f1,
+  InvM f -> Fam (core f) -> RowsGood f ops -> run_m f (firstn n ops) = Some f1 ->
+  (idle (core f1) <> [] -> exists P, PermM.inf_retis rp 1 (WQ (core f1)) (locks (core f1)) = Some P /\ ExactP (core f1) P) /\
+  forall P, PermM.inf_retis rp 1 (WQ (core f1)) (locks (core f1)) = Some P ->
+    (forall i j, is_locked (core f1) i = false -> is_locked (core f1) j = false ->
+       ((0 < PermM.mget P i j)%Q <-> exists m, take_cert (core f1) m i j = true)) /\
+    (forall c pin ws f2, step_m f1 (OpPick c pin) ws = Some f2 -> (0 < PermM.mget P (pk_i c) (pk_j c))%Q).
+Proof. exact picks_of_code_P_certified. Qed.
+Print Assumptions C05_code_P_exists_and_matches_certificates.
+
+Theorem C05_positive_pair_is_accepted : forall rp f P i j pin,
+  InvM f -> Fam (core f) -> PermM.inf_retis rp 1 (WQ (core f)) (locks (core f)) = Some P ->
+  is_locked (core f) i = false -> is_locked (core f) j = false -> (0 < PermM.mget P i j)%Q ->
+  ~ In pin (map jpin (locked (core f))) -> exists m f2, step_m f (OpPick (mkPick i j None) pin) [m] = Some f2.
+Proof. exact code_P_positive_pick_accepted. Qed.
+Print Assumptions C05_positive_pair_is_accepted.
 
 Example C05_example_init : matb (core ex5) [0;1;2;0] = true.
 Proof. vm_compute. reflexivity. Qed.
